@@ -278,6 +278,24 @@ func c11Run(tb rapid.TB, c c11Case) {
 			fail("the reader goroutine of a dead connection is still running (cause %s)\n%s", c.Cause, vGoroutineDump())
 		}
 	}
+	// Whatever happened: Connect was called on this client, so once the transport is closed Done() closes and the
+	// reader goroutine is gone (also when the call itself ended early because of its context).
+	r.conn.Close()
+	dch := r.cli.Done()
+	closedOK := false
+	if dch != nil {
+		select {
+		case <-dch:
+			closedOK = true
+		case <-time.After(20 * time.Second):
+		}
+	}
+	if !closedOK {
+		fail("Connect was called, the transport has been closed, but Done() does not close (Done() channel nil: %v)\n%s", dch == nil, vGoroutineDump())
+	}
+	if !vWaitUntil(20*time.Second, func() bool { return c11ServeGoroutines() <= baseline }) {
+		fail("the reader goroutine is still running 20 s after the transport was closed (cause %s)\n%s", c.Cause, vGoroutineDump())
+	}
 	labels := []string{"cause:" + c.Cause}
 	for _, cl := range c.Calls {
 		labels = append(labels, "cell:"+cl.Kind+"@"+cl.Step)
